@@ -63,11 +63,44 @@ def run(rep, tier, seed):
             rec = recs[r[0] - 1]
             rep.violation("C18:ledger:%s:%s" % (rec["op"], "+".join(sorted(str(c) for c in r[1]))),
                           "reference ledger rejected: %r" % rec, rec)
+        # (2b) borrowed references across callbacks: Reentrancy.tla decides the ownership discipline, every state is a program
+        from . import reentrancy
+        rdump = os.path.join(work, "reentrancy")
+        rres = tlc.run_tlc("Reentrancy", "Reentrancy.cfg", dump=rdump, timeout=600, workers=1, heap="2g")
+        rep.add_tlc("Reentrancy", rres)
+        rresf = tlc.run_tlc("Reentrancy", "Reentrancy_F25.cfg", timeout=600, workers=1, heap="2g")
+        rep.add_tlc("Reentrancy(F25: entry points not holding their own reference - expected to violate Safe)", rresf,
+                    must_pass=False)
+        rep.extra["F25_reproduced_by_TLC_without_frame_references"] = (rresf.violated == "Safe")
+        progs = reentrancy.programs_from_dump(rdump + ".dump")
+        if not progs:
+            raise MachineryError("no reentrancy programs")
+        progfile = os.path.join(work, "reentrancy.json")
+        with open(progfile, "w") as f:
+            json.dump(progs, f)
+        # one forked child runs them all; only if that child crashes is each program run in a child of its own
+        status, rs = run_isolated(reentrancy.run_all, progs)
+        if status == "ok":
+            results = list(zip(progs, [("ok", r) for r in rs]))
+        elif status == "crash":
+            results = [(prog, run_isolated(reentrancy.run_program, *prog)) for prog in progs]
+        else:
+            raise MachineryError("reentrancy programs: %s" % rs)
+        for prog, (status, r) in results:
+            if status == "crash":
+                rep.violation("C18:crash:reentrancy:%s" % ":".join(prog), "the interpreter crashed (%s) when the %s callback of a %s "
+                              "trait performed %s" % (r, prog[1], prog[0], prog[2]), {"program": prog, "how": r})
+            elif status != "ok":
+                raise MachineryError("reentrancy program %r: %s" % (prog, r))
+            elif not r["fired"]:
+                raise MachineryError("vacuous reentrancy program %r: the callback never ran" % (prog,))
+        rep.case(len(progs))
+        rep.extra["reentrancy_programs"] = len(progs)
         # (3) sanitised replay
         so = build.build_ctraits(asan=True)
         env = dict(os.environ)
         env.update(LD_PRELOAD=build.asan_runtime(), ASAN_OPTIONS="detect_leaks=0:abort_on_error=0:halt_on_error=1:exitcode=66",
-                   UBSAN_OPTIONS="print_stacktrace=1:halt_on_error=1:exitcode=67", VERIF_CTRAITS_SO=so, VERIF_HOME=VERIF,
+                   UBSAN_OPTIONS="print_stacktrace=1:halt_on_error=1:exitcode=67", VERIF_CTRAITS_SO=so, VERIF_HOME=VERIF, VERIF_REENTRANCY_PROGRAMS=progfile,
                    PYTHONHASHSEED="0", PYTHONMALLOC="malloc")
         scale = 1 if tier == "quick" else 8
         p = subprocess.run([sys.executable, os.path.join(VERIF, "harness", "drivers", "asan_programs.py"), str(seed), str(scale)],
@@ -82,7 +115,10 @@ def run(rep, tier, seed):
                                                   "stdout_tail": p.stdout[-2000:]})
             if report or p.returncode < 0 or p.returncode in (66, 67):
                 first = next((l for l in p.stderr.splitlines() if "ERROR: AddressSanitizer" in l or "runtime error:" in l), "")
-                rep.violation("C18:sanitiser", "sanitised replay: exit %s; %s" % (p.returncode, first[:300]), path=path)
+                summ = next((l for l in p.stderr.splitlines() if l.startswith("SUMMARY:")), "")
+                lastprog = next((l for l in reversed(p.stdout.splitlines()) if l.startswith("PROGRAM ")), "")
+                rep.violation("C18:sanitiser", "sanitised replay: exit %s; %s %s (running: %s)" %
+                              (p.returncode, first[:300], summ[:200], lastprog), path=path)
             else:
                 sys.stderr.write(p.stderr[-3000:])
                 raise MachineryError("sanitised subprocess failed without a sanitiser report (rc=%s)" % p.returncode)
@@ -94,9 +130,11 @@ def run(rep, tier, seed):
             "(2) %d reference-ledger loops (31 operations, successful and failing, K=12 fresh values each) measured with "
             "sys.getrefcount on the freshly compiled extension and judged by TLC against RefLedger.tla; (3) %d "
             "specification-generated operations/histories (the drivers of C01-C05, C08-C14, C19, C20, ledger loops, "
-            "trait-definition pickling, handler removal during dispatch, forced garbage collections) executed in a "
+            "trait-definition pickling, handler removal during dispatch, forced garbage collections, and the %d "
+            "(trait location, callback site, re-entrant action) programs of Reentrancy.tla, whose ownership discipline TLC "
+            "proves safe with and unsafe without frame references) executed in a "
             "subprocess against an ASan+UBSan build of /repo/traits/ctraits.c with no sanitiser report."
-            % (rep.extra.get("ctrait_handler_configurations", 0), n, nprog))
+            % (rep.extra.get("ctrait_handler_configurations", 0), n, nprog, len(progs)))
         rep.assumptions += ["ASan/UBSan observe only the compiled extension (the interpreter itself is not instrumented)",
                             "refcount deltas are steady-state measurements after gc.collect()"]
     finally:
